@@ -1486,6 +1486,10 @@ impl DnsOutPacket {
 
         if self.size() > MAX_MSG_ABSOLUTE {
             self.data.truncate(start_size);
+            // Forget the names of the rolled-back record: their offsets
+            // are no longer inside the packet.
+            self.names
+                .retain(|_, offset| (*offset as usize) < start_size);
             self.state = PacketState::Finished;
             return false;
         }
